@@ -120,6 +120,6 @@ def cases(tier, seed, ctx=None):
         tree = [[b"root/" + name, 0, cnt]]
         for sp in (None, b"bytes=0-3", b"bytes=5-", b"bytes=-4", b"bytes=9-12"):
             yield ("fs", [tree, b"@BASE@/root", name, [] if sp is None else [[b"Range", sp]], ver, [8, 0, cnt]], "text-with-CR")
-    # the FilesystemHandler object is replaced and destroyed while a 300000-byte transfer it started is still under way (family life,
+    # the FilesystemHandler object is replaced and destroyed while an 8 MiB transfer it started is still under way (family life,
     # kind 1, over a real connection): the response still arrives whole
-    yield ("life", [1, [[b"GET /big.bin HTTP/1.1\r\n\r\n", 1000, 7]], 0, 1], "handler-destroyed-mid-transfer")
+    yield ("life", [1, [[b"GET /huge.bin HTTP/1.1\r\n\r\n", 1000, 7]], 0, 1], "handler-destroyed-mid-transfer")
